@@ -228,7 +228,25 @@ func genChainOp(t *rapid.T, healthyPossible bool) chainOp {
 				return qf
 			}}
 		case 1:
-			j := rapid.IntRange(0, 4).Draw(t, "setfunc")
+			j := rapid.IntRange(0, 6).Draw(t, "setfunc")
+			if j >= 5 {
+				// a function registered in ONE context is unknown to every other one (the default context of an Eval
+				// without options, a fresh context)
+				fname := fmt.Sprintf("onlyinctx%d", j)
+				return chainOp{desc: "Eval (default/fresh context) of a function that was registered in another context only", mustErr: true, run: func(qf qframe.QFrame) qframe.QFrame {
+					ctx := eval.NewDefaultCtx()
+					if err := ctx.SetFunc(fname, func(x int) int { return 3 * x }); err != nil {
+						panic(err)
+					}
+					if err := ctx.SetFunc(fname, func(x, y int) int { return x + y }); err != nil {
+						panic(err)
+					}
+					if j == 5 {
+						return temps(qf).Eval("n1", qframe.Expr(fname, types.ColumnName("ti")))
+					}
+					return temps(qf).Eval("n1", qframe.Expr(fname, types.ColumnName("ti"), types.ColumnName("ti")), eval.EvalContext(eval.NewDefaultCtx()))
+				}}
+			}
 			return chainOp{desc: fmt.Sprintf("eval.Context.SetFunc misuse %d, then Eval of the function that was not registered", j), mustErr: true, run: func(qf qframe.QFrame) qframe.QFrame {
 				ctx := eval.NewDefaultCtx()
 				var err error
@@ -268,7 +286,27 @@ func genChainOp(t *rapid.T, healthyPossible bool) chainOp {
 				return tq.Apply(qframe.Instruction{Fn: func(a, b bool) int { return 0 }, DstCol: "n1", SrcCol1: "tb", SrcCol2: "tb"})
 			}}
 		default:
-			j := rapid.IntRange(0, 4).Draw(t, "enummisuse")
+			j := rapid.IntRange(0, 6).Draw(t, "enummisuse")
+			if j >= 5 {
+				// a malformed like/ilike pattern is an invalid argument whatever the column holds: here an enum column
+				// without any value (only nulls, or no row at all)
+				badRe := rapid.SampledFrom([]string{"a(b", "[a-", "%*(", "a{2,1}"}).Draw(t, "badre2")
+				comp := rapid.SampledFrom([]string{"like", "ilike"}).Draw(t, "badcomp2")
+				rows := rapid.IntRange(0, 2).Draw(t, "emptyenumrows")
+				return chainOp{desc: fmt.Sprintf("%s %q on an enum column without values (%d null rows)", comp, badRe, rows), mustErr: true, run: func(qf qframe.QFrame) qframe.QFrame {
+					if qf.Err != nil {
+						return qf.Filter(qframe.Filter{Column: "e1", Comparator: comp, Arg: badRe})
+					}
+					fresh := qframe.New(map[string]interface{}{"en": make([]*string, rows)}, newqf.Enums(map[string][]string{"en": nil}))
+					if fresh.Err != nil {
+						panic(fresh.Err)
+					}
+					if j == 5 {
+						return fresh.Filter(qframe.Filter{Column: "en", Comparator: comp, Arg: badRe})
+					}
+					return fresh.Filter(qframe.Not(qframe.And(qframe.Filter{Column: "en", Comparator: comp, Arg: badRe})))
+				}}
+			}
 			return chainOp{desc: fmt.Sprintf("enum column misuse %d (falls back to a string column when e1/e2 are gone)", j), mustErr: true, run: func(qf qframe.QFrame) qframe.QFrame {
 				tq := temps(qf)
 				a, b := "ts", "ts"
